@@ -141,7 +141,7 @@ impl Property for C18 {
         }
     }
     fn rule(&self) -> &'static str {
-        "per run: chip (AY/YM), stereo mode (7), sample rate (8000..384000), a random register-write history interleaved with sample generation, then one probe segment: tone pitch (channel, TP incl. 0), noise rate (NP incl. 0), envelope contour (16 shapes, EP), volume ladder (16 steps, AY and YM), mixer gating (64 masks), panning (mode x channel), bound (random history only), port read-back through the real machine (register numbers 0..255), order independence of register writes, or listener independence (a channel that starts to listen to the tone / noise / envelope generator late hears exactly what one that listened all along hears); distinct = (feature, parameter bucket, rate bucket, mode, chip)"
+        "per run: chip (AY/YM), stereo mode (7), sample rate (8000..384000), a random register-write history interleaved with sample generation, then one probe segment: tone pitch (channel, TP incl. 0), noise rate (NP incl. 0), envelope contour (16 shapes, EP), volume ladder (16 steps, AY and YM), mixer gating (64 masks), panning (mode x channel), bound (random history only), port read-back through the real machine (register numbers 0..255), order independence of register writes, or listener independence (a channel that starts to listen to the tone / noise / envelope generator late hears exactly what one that listened all along hears); one-shot envelopes followed over 140000 steps (EP 1..3); machine-level twin switched on after 52..82 frames of zero amplitude; distinct = (feature, parameter bucket, rate bucket, mode, chip)"
     }
     fn state_measure(&self) -> &'static str {
         "none (see distinct)"
